@@ -63,6 +63,8 @@ STRINGS = [
     "{\"json\": [1, 2]}",
     "x" * 257,
     "long text " * 150,  # 1500 characters
+    "cafe\u0301 au lait",  # decomposed (NFD) free text
+    "A\u030angstro\u0308m \ufb01 \u2126",  # NFC / NFKC would change it
     "None",
     "null",
     "0",
@@ -87,6 +89,9 @@ LABELS = [
     "x.y",
     "k/v",
     "k:v",
+    " lead blank",
+    "Upper Case",
+    "trail blank ",
 ]
 
 AUDIO_ROOTS = [
@@ -219,6 +224,22 @@ _SIMPLE = {
     "<class 'datetime.datetime'>": "datetime",
     "typing.Optional[datetime.datetime]": "datetime",
 }
+
+
+for _text, _kind in list(_SIMPLE.items()):
+    # other spellings of the same annotations (PEP 604, lower-case generics)
+    if _text.startswith("typing.Optional[") and _text.endswith("]"):
+        _inner = _text[len("typing.Optional["):-1]
+        _inner = _inner.replace("typing.List", "list")
+        for _spelling in (f"{_inner} | None", f"None | {_inner}",
+                          f"typing.Optional[{_inner}]",
+                          f"typing.Union[{_inner}, NoneType]"):
+            _SIMPLE.setdefault(_spelling, _kind)
+_SIMPLE.setdefault("str | None", "str")
+_SIMPLE.setdefault("int | None", "int")
+_SIMPLE.setdefault("float | None", "float")
+_SIMPLE.setdefault("bool | None", "bool")
+_SIMPLE.setdefault("datetime.datetime | None", "datetime")
 
 
 def set_declared_fields(fields: dict) -> None:
@@ -619,7 +640,7 @@ def gen_world(struct_seed, value_seed, cfg) -> dict:
             u["username"] = gen_str(rv, cfg)
         if _maybe(rv, cfg):
             u["email"] = (
-                f"u{rv.randint(0, 99)}.{rv.choice(['a', 'bat', 'x-y'])}"
+                f"{rv.choice(['u', 'u', 'John.Smith', 'U'])}{rv.randint(0, 99)}.{rv.choice(['a', 'bat', 'x-y'])}"
                 f"@{rv.choice(['example.org', 'uni.ac.uk', 'sub.dom.io'])}"
             )
         if _maybe(rv, cfg):
@@ -712,6 +733,9 @@ def gen_world(struct_seed, value_seed, cfg) -> dict:
             r["rights"] = rv.choice(
                 ["鳥の録音データ第", "コウモリの超音波記録", "ünïcödé rëcördïng "]
             ) * rv.randint(3, 8)
+        if recordings and recordings[-1].get("hash") and rv.random() < 0.15:
+            # two recordings with the same content hash (a copy of a file)
+            r["hash"] = recordings[-1]["hash"]
         r["owners"] = _pick_some(rs, nu, 2)
         r["tags"] = _pick_tags(rs, nt, 3)
         r["features"] = gen_features(rv, cfg)
@@ -866,6 +890,19 @@ def gen_world(struct_seed, value_seed, cfg) -> dict:
             }
         )
 
+    if clip_predictions and rs.random() < 0.25:
+        # one clip, predicted twice (two models, two thresholds)
+        clip_predictions.append(
+            {
+                "uuid": _uuid(rs),
+                "clip": clip_predictions[0]["clip"],
+                "sound_events": [],
+                "sequences": [],
+                "tags": predicted_tags(),
+                "features": gen_features(rv, cfg),
+            }
+        )
+
     # clip evaluations: pair a clip annotation and a clip prediction of the
     # same clip and cover every annotated / predicted sound event exactly once
     for ai, ann in enumerate(clip_annotations):
@@ -928,6 +965,16 @@ def gen_world(struct_seed, value_seed, cfg) -> dict:
                     "created_on": gen_datetime(rv, cfg),
                 }
             )
+    if tasks and rs.random() < 0.25:
+        # one clip, two tasks (annotate, then review)
+        tasks.append(
+            {
+                "uuid": _uuid(rs),
+                "clip": tasks[0]["clip"],
+                "status_badges": [],
+                "created_on": gen_datetime(rv, cfg),
+            }
+        )
     task_clips = {t["clip"] for t in tasks}
 
     def root_common():
@@ -994,7 +1041,7 @@ def gen_world(struct_seed, value_seed, cfg) -> dict:
         "clip_evaluations": _subset_keep_order(
             rs, len(clip_evaluations), keep=0.85
         ),
-        "evaluation_task": gen_str(rv, cfg, nonempty=True),
+        "evaluation_task": gen_str(rv, cfg),
         "metrics": gen_features(rv, cfg, 3),
     }
     if _maybe(rv, cfg):
